@@ -16,7 +16,7 @@ D="dec.go"; X="decimal.go"
 # CARRY
 pos("carry-add-top-dropped",D,"	c := add10VV(z[0:n], x, y)\n	if m > n {\n		c = add10VW(z[n:m], x[n:], c)\n	}\n	z[m] = c","	c := add10VV(z[0:n], x, y)\n	if m > n {\n		add10VW(z[n:m], x[n:], c)\n	}\n	z[m] = c","CARRY","dec.add/add10VW",quick=True)
 pos("carry-round-allnines-ignored",X,"			if add10VW(z.mant, z.mant, Word(lsd)) != 0 {","			add10VW(z.mant, z.mant, Word(lsd))\n			if false {","CARRY","round")
-pos("carry-divrecursive-extra-discard",D,"	c := sub10VV(u[0:len(qhatv)], u[0:len(qhatv)], qhatv)\n	if c > 0 {\n		c = sub10VW(u[len(qhatv):], u[len(qhatv):], c)\n	}","	c := sub10VV(u[0:len(qhatv)], u[0:len(qhatv)], qhatv)\n	if c > 0 {\n		sub10VW(u[len(qhatv):], u[len(qhatv):], c)\n		c = 0\n	}","CARRY","divRecursiveStep/sub10VW")
+neg("neg-carry-divrecursive-sanity-borrow-dropped",D,"	c := sub10VV(u[0:len(qhatv)], u[0:len(qhatv)], qhatv)\n	if c > 0 {\n		c = sub10VW(u[len(qhatv):], u[len(qhatv):], c)\n	}","	c := sub10VV(u[0:len(qhatv)], u[0:len(qhatv)], qhatv)\n	if c > 0 {\n		sub10VW(u[len(qhatv):], u[len(qhatv):], c)\n		c = 0\n	}",["CARRY"],note="the borrow of the last in-place propagation only feeds a `cannot happen` panic: dropping it does not change any result (was a positive control while CARRY counted discards per function; in-place propagations are now accepted by shape so that moving code between helpers is not an alarm)")
 # MUSTFLOW
 pos("uquo-sticky-dropped",X,"	var sbit uint\n	if len(r) > 0 {\n		sbit = 1\n	}\n","	var sbit uint\n	_ = r\n","MUSTFLOW","uquo/remainder",quick=True,note="compiles and passes all 80 tests")
 pos("umul-dnorm-ignored",X,"	z.setExpAndRound(e-dnorm(z.mant), 0)\n}\n\nconst (","	dnorm(z.mant)\n	z.setExpAndRound(e, 0)\n}\n\nconst (","MUSTFLOW","umul/dnorm")
